@@ -1,19 +1,172 @@
 ------------------------------ MODULE ActsProps ------------------------------
 (***************************************************************************)
-(* The listed properties as formulas over the state of Acts.tla.           *)
+(* The listed properties as formulas over the state of Acts.tla.  The same *)
+(* operators are evaluated by TLC on the specification (every schedule,    *)
+(* every model of the family) and, through Observe.tla, on the states the  *)
+(* implementation was observed in.                                         *)
 (***************************************************************************)
 EXTENDS Acts
 
-Live(pid) == procs[pid].st # "absent" /\ procs[pid].ts # <<>>
+Started(pid) == procs[pid].st # "absent"
+Live(pid) == Started(pid) /\ procs[pid].ts # <<>>
 Quiescent == queue = {} /\ spawn = {}
 
-OpenIrq(pid) == \E t \in DOMAIN procs[pid].ts :
-                  /\ procs[pid].ts[t].st = "interrupted"
-                  /\ Trees[procs[pid].mi].n[t[1]].kind = "act"
+P(pid) == procs[pid]                       \* also serves as the S record of Acts' operators
+ND(pid, t) == Trees[procs[pid].mi].n[t[1]]
+TaskKeys(pid) == DOMAIN procs[pid].ts
+
+Desc(S, t) == { u \in DOMAIN S.ts : t \in AncSet(S, u) }
+
+IsIrq(pid, t) == ND(pid, t).kind = "act" /\ ND(pid, t).uses = "irq"
+OpenIrq(pid) == \E t \in TaskKeys(pid) : P(pid).ts[t].st = "interrupted" /\ ND(pid, t).kind = "act"
 Terminated(pid) == procs[pid].ev.term >= 1
 
+-----------------------------------------------------------------------------
 (* C01 — whenever nothing is in flight, every started process has delivered  *)
 (* its terminal event or waits on an open interrupt act.                     *)
 C01_QuiescentOK ==
   Quiescent => \A pid \in Pids : Live(pid) => Terminated(pid) \/ OpenIrq(pid)
+
+(* C02 — only legal transitions; every write is judged where it happens      *)
+(* (Acts!SetStVia) and offenders are collected in `viol`.                    *)
+C02_Lifecycle == \A pid \in Pids : Started(pid) => procs[pid].viol = {}
+
+-----------------------------------------------------------------------------
+(* C03 *)
+C03_ParentDone ==
+  \A pid \in Pids : Live(pid) =>
+    \A t \in TaskKeys(pid) :
+      P(pid).ts[t].st = "completed" =>
+        \A u \in Desc(P(pid), t) : IsDone(P(pid).ts[u].st)
+
+C03_ProcMirrorsRoot ==
+  \A pid \in Pids : Live(pid) =>
+    LET root == RootKey(P(pid)) IN
+    root \in TaskKeys(pid) =>
+      ((IsDone(P(pid).ts[root].st) \/ IsDone(P(pid).ps)) => P(pid).ps = P(pid).ts[root].st)
+
+C03_Events ==
+  \A pid \in Pids : Started(pid) =>
+    LET ev == procs[pid].ev IN
+    /\ ev.start <= 1 /\ ev.term <= 1
+    /\ (ev.term >= 1 => ev.start >= 1)
+    /\ Cardinality(ev.kinds) <= 1
+
+C03_TerminalEvent ==
+  \A pid \in Pids : Live(pid) /\ IsDone(P(pid).ps) => procs[pid].ev.term >= 1
+
+(* a non-error ending leaves nothing open (a queued task in state none is    *)
+(* open: it will be executed and open new tasks)                             *)
+C03_CleanEnding ==
+  \A pid \in Pids : Live(pid) /\ procs[pid].ev.kinds = {"complete"} =>
+    \A t \in TaskKeys(pid) : IsDone(P(pid).ts[t].st)
+
+-----------------------------------------------------------------------------
+(* C05 *)
+C05_Admission ==
+  lastRes = "ok" /\ lastAct.a = "Act" =>
+    /\ lastAct.st # "absent"
+    /\ (lastAct.kind = "push" => ND(lastAct.pid, lastAct.t).kind = "step")
+    /\ (lastAct.kind # "push" => ND(lastAct.pid, lastAct.t).kind = "act")
+
+C05_TerminalRejected ==
+  lastAct.a = "Act" /\ lastAct.kind \in TerminalKinds /\ IsDone(lastAct.st) => lastRes = "err"
+
+C05_AtMostOnce ==
+  \A pid \in Pids : Live(pid) => \A t \in TaskKeys(pid) : P(pid).ts[t].okterm <= 1
+
+(* successors are created exactly once: no two tasks of one node hang off    *)
+(* the same predecessor, unless back/cancel re-created the step              *)
+C05_NoDupSuccessor ==
+  \A pid \in Pids : Live(pid) =>
+    \A u, v \in TaskKeys(pid) :
+      (u # v /\ u[1] = v[1] /\ P(pid).ts[u].prev = P(pid).ts[v].prev)
+        => (P(pid).ts[u].redo \/ P(pid).ts[v].redo)
+
+(* a rejected complete/submit/skip/remove/abort/error/back changes nothing   *)
+C05_RejectedIsNoop ==
+  [][ (lastRes' = "err" /\ lastAct'.kind \in TerminalKinds)
+        => (UNCHANGED <<procs, queue, spawn>> /\ lastOut' = <<>>) ]_vars
+
+-----------------------------------------------------------------------------
+(* C06 *)
+(* an error that no catch took has climbed: the parent carries the same code, *)
+(* the root's error is the process's error                                    *)
+C06_Propagates ==
+  Quiescent => \A pid \in Pids : Live(pid) =>
+    \A t \in TaskKeys(pid) :
+      P(pid).ts[t].st = "error" =>
+        LET p == ParentOf(P(pid), t)  e == P(pid).ts[t].err IN
+        IF p = NoKey THEN P(pid).ps = "error" /\ P(pid).perr = e
+        ELSE \/ P(pid).ts[p].st = "error" /\ P(pid).ts[p].err = e
+             \/ P(pid).ts[p].catchDone /\ P(pid).ts[p].caught = e      \* taken by the parent's catch
+
+(* a catch takes only an error it matches, and it is the first matching one  *)
+C06_CatchMatches ==
+  \A pid \in Pids : Live(pid) =>
+    \A t \in TaskKeys(pid) :
+      P(pid).ts[t].catchDone =>
+        LET cs == ND(pid, t).catches  i == P(pid).ts[t].caughtBy  code == P(pid).ts[t].caught IN
+        /\ i \in DOMAIN cs
+        /\ (cs[i] = NIL \/ cs[i] = code)
+        /\ \A j \in 1..(i - 1) : ~(cs[j] = NIL \/ cs[j] = code)
+
+(* the steps of the catch that took the error are instantiated exactly once,  *)
+(* those of the other catches never                                           *)
+C06_CatchStepsOnce ==
+  \A pid \in Pids : Live(pid) =>
+    \A t \in TaskKeys(pid) :
+      LET n == ND(pid, t)
+          inst(id) == { u \in TaskKeys(pid) : u[1] = id /\ P(pid).ts[u].prev = t } IN
+      \A c \in DOMAIN n.ckids :
+        IF P(pid).ts[t].catchDone /\ n.catches[P(pid).ts[t].caughtBy] = n.ckids[c].on
+        THEN Cardinality(inst(n.ckids[c].id)) = 1
+        ELSE Cardinality(inst(n.ckids[c].id)) = 0
+
+(* once the catch steps are finished the catching task has completed          *)
+C06_CaughtCompletes ==
+  Quiescent => \A pid \in Pids : Live(pid) =>
+    \A t \in TaskKeys(pid) :
+      (P(pid).ts[t].catchDone /\ \A u \in Desc(P(pid), t) : IsDone(P(pid).ts[u].st))
+        => P(pid).ts[t].st # "running"
+
+-----------------------------------------------------------------------------
+(* C08 (generation side) *)
+Emits(pid, t) == ND(pid, t).kind \in {"workflow", "step"} \/ IsIrq(pid, t)
+
+C08_AtMostOne ==
+  \A pid \in Pids : Live(pid) =>
+    \A t \in TaskKeys(pid) : P(pid).ts[t].mcre <= 1 /\ P(pid).ts[t].mterm <= 1
+
+C08_CreatedFirst ==      \* a terminal message of a task that was open follows its created one
+  \A pid \in Pids : Live(pid) =>
+    \A t \in TaskKeys(pid) :
+      (Emits(pid, t) /\ P(pid).ts[t].st \in (Created \cup {"running"})) => P(pid).ts[t].mcre = 1
+
+C08_TerminalReported ==
+  \A pid \in Pids : Live(pid) =>
+    \A t \in TaskKeys(pid) :
+      (Emits(pid, t) /\ IsDone(P(pid).ts[t].st)) => P(pid).ts[t].mterm >= 1
+
+C08_BranchSilent ==
+  \A pid \in Pids : Live(pid) =>
+    \A t \in TaskKeys(pid) :
+      ND(pid, t).kind = "branch" => P(pid).ts[t].mcre = 0 /\ P(pid).ts[t].mterm = 0
+
+C08_MsgAct ==
+  \A pid \in Pids : Live(pid) =>
+    \A t \in TaskKeys(pid) :
+      (ND(pid, t).kind = "act" /\ ND(pid, t).uses = "msg") =>
+        /\ P(pid).ts[t].mcre = 0
+        /\ (P(pid).ts[t].st = "completed" => P(pid).ts[t].mterm = 1)
+
+C08_ParentFirst ==
+  \A pid \in Pids : Live(pid) =>
+    \A t \in TaskKeys(pid) :
+      P(pid).ts[t].mcre >= 1 =>
+        LET p == ParentOf(P(pid), t) IN
+        (p # NoKey /\ ND(pid, p).kind \in {"workflow", "step"}) => P(pid).ts[p].mcre >= 1
+
+(* debugging aid: bound on instances per node *)
+DBG_FewInstances == \A pid \in Pids : Live(pid) => \A t \in TaskKeys(pid) : t[2] <= 3
 =============================================================================
